@@ -154,6 +154,26 @@ fn sym_gc() -> Gc {
     gc
 }
 
+/// The configured memory limit is stored as given, by the constructor and by the setter (what
+/// `alloc_owned` compares against), and setting it does not touch the accounting.
+#[kani::proof]
+fn c07__mem_limit__limit_stored_as_given() {
+    let l0: usize = kani::any();
+    let l: usize = kani::any();
+    let mut gc = Gc::new(kani::any(), l0);
+    assert!(gc.memory_limit == l0);
+    // any state of the accounting (the limit may be lowered below what is already allocated)
+    gc.allocated_memory = kani::any();
+    gc.collect_limit = kani::any();
+    let allocated = gc.allocated_memory;
+    let climit = gc.collect_limit;
+    gc.set_memory_limit(l);
+    assert!(gc.memory_limit == l);
+    assert!(gc.allocated_memory == allocated && gc.collect_limit == climit);
+    mem::forget(gc);
+    kani::cover!(true); // vacuity guard
+}
+
 // ---------------------------------------------------------------- C13 / gc-cloner coherence
 
 /// With the real `Gc::mark` on a real one-object heap: whenever the cloner of a receiver
